@@ -432,10 +432,7 @@ func genLinesContent(g *Gen, sep string, big bool) string {
 
 // a separator placed exactly across a buffer boundary (bufio.Scanner starts with 4096 bytes and doubles)
 func genStraddle(g *Gen, sep string) string {
-	boundary := Pick(g, []int{4096, 8192, 16384, 4096 * 1024})
-	if boundary > 20000 && !g.Chance(1, 4) {
-		boundary = 4096
-	}
+	boundary := Pick(g, []int{4096, 4096, 8192, 16384, 32768})
 	off := g.Intn(len(sep) + 1)
 	var sb strings.Builder
 	sb.WriteString("h" + sep)
